@@ -25,6 +25,7 @@ import (
 
 	"gitlab.com/aquachain/aquachain/common"
 	"gitlab.com/aquachain/aquachain/common/log"
+	"gitlab.com/aquachain/aquachain/common/verifhook"
 	"gitlab.com/aquachain/aquachain/consensus"
 	"gitlab.com/aquachain/aquachain/consensus/aquahash/ethashdag"
 	"gitlab.com/aquachain/aquachain/core/types"
@@ -137,6 +138,7 @@ func (aquahash *Aquahash) mine(version params.HeaderVersion, block *types.Block,
 	logger.Trace("Started aquahash search for new nonces", "seed", seed, "algo", version, "number", number, "difficulty", header.Difficulty, "target", target)
 search:
 	for {
+		verifhook.Point("aquahash.mine.attempt", id)
 
 		select {
 		case <-abort:
